@@ -65,7 +65,8 @@ def get_line_range_for_node(
     for childnode in ast.walk(node):
         end_lineno = getattr(childnode, "end_lineno", None)
         if end_lineno is not None:
-            last_lineno = max(last_lineno, end_lineno)
+            # the range is exclusive: include the node's last line itself
+            last_lineno = max(last_lineno, end_lineno + 1)
         elif hasattr(childnode, "lineno"):
             last_lineno = max(last_lineno, childnode.lineno)
 
